@@ -57,7 +57,7 @@ STANDARD_P2P_MESSAGES = {
     "sendaddrv2": "",
     "ping": "nonce:Q",
     "pong": "nonce:Q",
-    "filterload": "filter:[1] hash_function_count:L tweak:L flags:b",
+    "filterload": "filter:[1] hash_function_count:L tweak:L flags:1",
     "filteradd": "data:[1]",
     "filterclear": "",
     "merkleblock": ("header:z total_transactions:L hashes:[#] flags:[1]"),
